@@ -78,8 +78,10 @@ class Deferred(Node):
                 res = block.copy_inner(scope)
                 scope.current = None
 
+        framed = False
         if mixins:
             for mixin in mixins:
+                scope.push()
                 scope.current = scope.real[-1] if scope.real else None
                 res = mixin.call(scope, args)
                 if res:
@@ -89,7 +91,9 @@ class Deferred(Node):
                     [scope.add_variable(v) for v in mixin.vars
                      if v.name not in params]
                     scope.deferred = ident
+                    framed = True
                     break
+                scope.pop()
 
         if res:
             store = [t for t in scope.deferred.parsed[-1]
@@ -107,6 +111,8 @@ class Deferred(Node):
                 res = [p.parse(scope) for p in res if p]
             if store:
                 scope.deferred.parsed[-1] = store
+        if framed:
+            scope.pop()
 
         if error and not res:
             raise SyntaxError('NameError `%s`' % ident.raw(True))
